@@ -108,6 +108,7 @@ CONV_MACROS = {
     "impl_from_primitive_to_newtype": "FromPN",
     "impl_try_from_newtype_to_newtype": "TryNN",
     "impl_try_from_primitive_to_newtype": "TryPN",
+    "impl_try_from_signed_primitive_to_newtype": "TrySPN",
 }
 
 
@@ -420,8 +421,8 @@ def main():
     r.append("// GENERATED by translator/gen_tables.py -- do not edit.")
     r.append("// kind: 0 From newtype->newtype, 1 From newtype->primitive, 2 From primitive->newtype,")
     r.append("//       3 TryFrom newtype->newtype, 4 TryFrom primitive->newtype")
-    kinds = {"FromNN": 0, "FromNP": 1, "FromPN": 2, "TryNN": 3, "TryPN": 4}
-    r.append("pub fn run_conv(idx: i64, x: i128) -> Vec<i64> {")
+    kinds = {"FromNN": 0, "FromNP": 1, "FromPN": 2, "TryNN": 3, "TryPN": 4, "TrySPN": 5}
+    r.append("pub fn run_conv(idx: i64, x: (bool, u128)) -> Vec<i64> {")
     r.append("    match idx {")
     for i, (k, a, b) in enumerate(convs):
         r.append("        %d => conv_%s!(%s, %s, x)," % (i, k, a, b))
